@@ -203,7 +203,7 @@ def vInline (v : PyVal) (k : List (String × PyVal) → R PyVal) : R PyVal :=
   | .dict kvs => (match kwOfDict kvs with
     | none => .error .typeErr
     | some kw => k kw)
-  | .inst _ attrs => k (attrs.filter (fun a => a.1 != "_instantiated"))
+  | .inst _ attrs => k attrs
   | _ => .error .typeErr
 
 def vNone (v : PyVal) : R PyVal := if v.isNone then .ok v else .error .typeErr
